@@ -117,6 +117,9 @@ CONC_THOROUGH = [
 ]
 
 
+NOREENT = {"REENT": "<<>>", "PRECHECK": "TRUE"}  # TPConc without re-entrant processors
+
+
 def bsp_defs(p, k, q, b, blocking, f, s, shape="current"):
     # placeholders of specs/BSP/MC_BSP*.cfg (C01's specification of the batch span processor)
     return {"PRODUCERS": tla_set(["p%d" % (i + 1) for i in range(p)]),
@@ -130,19 +133,45 @@ def bsp_defs(p, k, q, b, blocking, f, s, shape="current"):
 def model_checking(ctx, thorough):
     fam = CONC_FAMILY + (CONC_THOROUGH if thorough else [])
     for i, (callers, init) in enumerate(fam):
-        d = {"CALLERS": callers, "INIT": tla_seq(init), "CODESHAPE": "TRUE", "ALLOWKNOWN": "TRUE"}
+        d = {"CALLERS": callers, "INIT": tla_seq(init), "CODESHAPE": "TRUE", "ALLOWKNOWN": "TRUE", **NOREENT}
         r = ctx.tlc(S, "MC_TPConc", "MC_TPConc.cfg", defines=d, name="conc-%d" % i, timeout=1800, coverage=(i == 1))
-        if i == 1 and r["zero_cov"]:
-            ctx.note_inconclusive("TPConc: actions never taken: %s" % r["zero_cov"])
+        # (the re-entrancy actions need a re-entrant processor: covered by conc-reent-shutdown below; InnerLock / URel are
+        # the steps a re-entrant call would take once it GOT the mutex its own caller holds -- unreachable by construction)
+        zc = [a for a in r["zero_cov"] if a not in ("Inner", "InnerLock", "URel")]
+        if i == 1 and zc:
+            ctx.note_inconclusive("TPConc: actions never taken: %s" % zc)
     callers, init = CONC_FAMILY[1]
     # TLC must find the known deviation when it is not admitted (the contract is not vacuous) ...
     r = ctx.tlc(S, "MC_TPConc", "MC_TPConc.cfg", name="conc-noknown", must_pass=False, count=False, timeout=600,
-                defines={"CALLERS": callers, "INIT": tla_seq(init), "CODESHAPE": "TRUE", "ALLOWKNOWN": "FALSE"})
+                defines={"CALLERS": callers, "INIT": tla_seq(init), "CODESHAPE": "TRUE", "ALLOWKNOWN": "FALSE", **NOREENT})
     if r["violated"] != "Contract":
         ctx.note_inconclusive("model drift: TLC does not find D5 with AllowKnown=FALSE (%s)" % r["out"])
     # ... and the statement-shaped Unregister satisfies the strict invariants
     ctx.tlc(S, "MC_TPConc", "MC_TPConc.cfg", name="conc-statement", timeout=1800,
-            defines={"CALLERS": callers, "INIT": tla_seq(init), "CODESHAPE": "FALSE", "ALLOWKNOWN": "FALSE"})
+            defines={"CALLERS": callers, "INIT": tla_seq(init), "CODESHAPE": "FALSE", "ALLOWKNOWN": "FALSE", **NOREENT})
+    # re-entrant processors at lock level (TPConc `Reent`): a processor whose Shutdown calls back into the provider.
+    # Triggered by TracerProvider.Shutdown the lock-free isShutdown pre-check answers: nothing blocks (must hold);
+    # without the pre-check of Register / Unregister (the shape of a seeded change) the caller waits for the mutex
+    # it holds itself: `Stuck` must fail; triggered by Unregister the flag is not set: `Stuck` fails on the code as
+    # it is (known finding C15-unregister-runs-processor-shutdown-under-provider-lock = C10-D4)
+    re3 = '[p1 |-> "Register", p2 |-> "Unregister", p3 |-> "Shutdown"]'
+    sd = '[a |-> [op |-> "Shutdown"], b |-> [op |-> "Shutdown"], d |-> [op |-> "End"]]'
+    base = {"INIT": tla_seq(["p1", "p2", "p3"]), "CODESHAPE": "TRUE", "ALLOWKNOWN": "TRUE"}
+    r = ctx.tlc(S, "MC_TPConc", "MC_TPConc.cfg", name="conc-reent-shutdown", timeout=900, coverage=True,
+                defines=dict(base, CALLERS=sd, REENT=re3, PRECHECK="TRUE"))
+    if "Inner" in r["zero_cov"]:
+        ctx.note_inconclusive("TPConc: the re-entrant call is never made in conc-reent-shutdown")
+    ctx.tlc(S, "MC_TPConc", "MC_TPConc.cfg", name="conc-reent-shutdown-tracer", timeout=900,
+            defines=dict(base, CALLERS=sd, REENT='[p1 |-> "Tracer", p2 |-> "Tracer"]', PRECHECK="TRUE"))
+    exp = {}
+    for name, d in (("conc-reent-no-precheck", dict(base, CALLERS=sd, REENT=re3, PRECHECK="FALSE")),
+                    ("conc-reent-unregister-D4", dict(base, CALLERS='[a |-> [op |-> "Unregister", p |-> "p1"], d |-> [op |-> "End"]]',
+                                                      REENT='[p1 |-> "Tracer"]', PRECHECK="TRUE"))):
+        r = ctx.tlc(S, "MC_TPConc", "MC_TPConc.cfg", name=name, must_pass=False, count=False, timeout=600, defines=d)
+        exp[name] = r["violated"]
+        if r["violated"] != "Stuck":
+            ctx.note_inconclusive("model drift: %s no longer violates Stuck (%s)" % (name, r["out"]))
+    ctx.extra["reentrant_model"] = exp
     # "blocks forever" of the batch span processor at model level: BSP.tla (C01's specification, same TLA+ text)
     # with a producer / flusher past the stopped check across a complete Shutdown and a queue of one.
     # Current shape (ada0bc0: blocking sends select on stopCh): `Stuck` holds in blocking and drop mode, and
@@ -272,6 +301,21 @@ def run(ctx):
     if c1.get("bsp_race_second_call_returned", 0) != c1.get("bsp_race_schedules", -1) and "hung" not in kinds:
         ctx.note_inconclusive("D2/D3 schedules: the gated End / ForceFlush neither returned nor was reported hung (%s, desync=%s)"
                               % (ctx.extra["bsp_race"], c1.get("directed_desync", 0)))
+    # ---- re-entrant components: every cell of the matrix Reentry.tla enumerates, one subprocess per cell
+    r = ctx.tlc(S, "Reentry", "Reentry.cfg", workers=1, name="reentry-cells", timeout=300)
+    cells = [s_[5:] for s_ in r["prints"] if isinstance(s_, str) and s_.startswith("CELL ")]
+    cf = os.path.join(ctx.work, "cells.ndjson")
+    open(cf, "w").write("\n".join(dict.fromkeys(cells)) + "\n")
+    ncells = len(set(cells))
+    t3 = os.path.join(ctx.work, "trace-reent.ndjson")
+    r3 = os.path.join(ctx.work, "res-reent.json")
+    ctx.run([binp, "reent", "-cells", cf, "-out", t3, "-res", r3, "-par", "6"], timeout=3000)
+    res3 = judge_trace(ctx, t3, r3, "reent", kinds)
+    c3 = res3["counters"]
+    ctx.extra["reentrant_cells"] = {k: v for k, v in c3.items() if k.startswith("reent") or k == "scenarios_hung"}
+    if c3.get("reent_cells", 0) != ncells or c3.get("reentrant_calls_made", 0) != ncells:
+        ctx.note_inconclusive("re-entrant cells: %d enumerated, %s executed, %s re-entrant calls made"
+                              % (ncells, c3.get("reent_cells"), c3.get("reentrant_calls_made")))
     # ---- seeded random concurrent scenarios
     n = 20000 if thorough else 600
     t2 = os.path.join(ctx.work, "trace-random.ndjson")
@@ -280,7 +324,7 @@ def run(ctx):
     res2 = judge_trace(ctx, t2, r2, "random", kinds)
     ctx.add_samples(res2["samples"][:1], cap=6)
     conc = {}
-    for res in (res1, res2):
+    for res in (res1, res2, res3):
         for k, v in res["counters"].items():
             conc[k] = conc.get(k, 0) + v
     ctx.extra["concurrent_counters"] = conc
